@@ -144,15 +144,6 @@ func verifH_C09_seedsparse() {
 	verifReach("end")
 }
 
-func verifParseText(q string) (interface{}, error) {
-	ts := NewTokenScanner(strings.NewReader(q))
-	tl := TokenList{}
-	for ts.Next() {
-		tl.Add(ts.Cur())
-	}
-	p := Parser{TokenList: tl}
-	return p.Parse()
-}
 
 // H09-bytes: scanner + parser exactly as engine.parseSQL runs them.
 // mode 0: n fully symbolic bytes (ASCII range; non-ASCII is covered by concrete samples)
